@@ -111,13 +111,13 @@ AddSent ==
        /\ ed' = Append(ed, E("sent", pos, c, 0))
 
 \* free-form layout edits (C04): "brk" continuation of statement pos (a = where, in eighths of its tokens, b = variant:
-\* 0 plain &, 1 leading &, 2 comment after &, 3 blank line between, 4 comment line between, 5 both);
+\* 0 plain &, 1 leading &, 2 comment after &, 3 blank line between, 4 comment line between, 5 both, 6 leading & in column 1);
 \* "join" statement pos and pos+1 on one line with `;`; "case" change of letter case (a = style)
 \* with RichOnly the edit goes to the statement that carries the non-default catalogue variant
 RichPos(S) == IF RichOnly /\ (\E i \in S : out[i].v > 1) THEN {i \in S : out[i].v > 1} ELSE S
 AddLayout ==
   \/ /\ "brk" \in PKinds
-     /\ \E pos \in Ch(RichPos({i \in 1..N : Splittable(i)})), a \in 1..7, b \in 0..5 :
+     /\ \E pos \in Ch(RichPos({i \in 1..N : Splittable(i)})), a \in 1..7, b \in 0..6 :
           /\ ~InJoin(pos) /\ ~HasEd("brk", pos)
           /\ ~\E j \in 1..Len(ed) : ed[j].pos = pos /\ ed[j].t = "cmt" /\ ed[j].a \in {2, 3}
           /\ ed' = Append(ed, E("brk", pos, a, b))
